@@ -274,7 +274,7 @@ pub fn indicator_program_with(data: &[u8], oracles: &[String]) -> CaseResult {
 		let modelled = oracles.iter().any(|o| matches!(o.as_str(), "C05" | "C06" | "C12" | "C11"));
 		ch.wide = opt & 0x10 != 0 && !modelled;
 		ch.price_sources = opt & 0x20 == 0 || modelled;
-		ch.nonneg_ma = oracles.iter().any(|o| o == "C12") && matches!(name, "RelativeStrengthIndex" | "StochasticOscillator" | "SMIErgodicIndicator" | "Envelopes" | "KeltnerChannel");
+		ch.nonneg_ma = oracles.iter().any(|o| o == "C12") && matches!(name, "RelativeStrengthIndex" | "StochasticOscillator" | "SMIErgodicIndicator" | "Envelopes");
 		CfgCase { name: name.to_string(), cfg: cfggen::build(name, &mut ch) }
 	};
 	let s = CandleStream { n: 0, cs: lattice_candles(&mut c, 2000) };
